@@ -18,7 +18,7 @@ IsBits(b) == \A i \in 1..Len(b) : b[i] \in {0, 1}
 ExplainsRS(cfg, c, r) ==
     /\ r.st = "ok"
     /\ IsBits(cfg.bits) /\ Len(cfg.bits) = cfg.n
-    /\ CASE c.op \in {"new", "clone", "serde"} -> TRUE     \* later queries go to the clone / the round-tripped object
+    /\ CASE c.op \in {"new", "clone", "serde", "clone_from"} -> TRUE     \* later queries go to the copy or the original
          [] c.op = "get"      -> r.v = cfg.bits
          [] c.op = "rank_1"   -> r.v = RankAnswers(cfg.bits, 1)
          [] c.op = "rank_0"   -> r.v = RankAnswers(cfg.bits, 0)
@@ -28,7 +28,7 @@ ExplainsRS(cfg, c, r) ==
 
 ExplainsWM(cfg, c, r) ==
     /\ r.st = "ok"
-    /\ CASE c.op \in {"new", "clone", "serde"} -> TRUE
+    /\ CASE c.op \in {"new", "clone", "serde", "clone_from"} -> TRUE
          [] c.op = "rank" -> r.v = WRankTab(cfg.text, c.a.c)
          [] OTHER -> FALSE
 
